@@ -206,6 +206,10 @@ def run(p: Program, rep: Report, tier: str) -> None:
                             outside = [c_ for c_ in callers if not c_.endswith(".stream")]
                             if callers and not outside:
                                 continue
+                            if not callers:
+                                # no call of the private helper is left: the loader spliced it into its caller(s) (N8/N9), whose own
+                                # bodies are scanned by this very loop - the helper's text is judged there
+                                continue
                             rep.violation("R10.1", construct(m, text="reads the request channel"), where(m, bad),
                                           f"{m.fq} reads the request channel and is called from {outside or 'nowhere'}, not only from stream(): a message can be consumed twice or stolen from the body")
                             continue
